@@ -48,6 +48,7 @@ double walltime_com=0;
 
 // Performs one full center of mass step (H_0)
 static void reb_whfast512_com_step(struct reb_simulation* r, const double _dt){
+    REB_VERIF(r, "w5_com", 2, _dt, r->dt);
 #ifdef PROF
     struct reb_timeval time_beginning;
     gettimeofday(&time_beginning,NULL);
@@ -68,6 +69,7 @@ static void reb_whfast512_com_step(struct reb_simulation* r, const double _dt){
 // Convert democratic heliocentric coordinates to inertial coordinates
 // Note: this is only called at the end. Speed is not a concern.
 static void democraticheliocentric_to_inertial_posvel(struct reb_simulation* r){
+    REB_VERIF(r, "w5_to_in", 1, (double)r->N);
     struct reb_integrator_whfast512* const ri_whfast512 = &(r->ri_whfast512);
     struct reb_particle* particles = r->particles;
     struct reb_particle_avx512* p_jh = ri_whfast512->p_jh;
@@ -206,6 +208,7 @@ static void inline mm_stiefel_Gs03_avx512(__m512d * Gs0, __m512d * Gs1, __m512d 
 
 // Performs one full Kepler step
 static void inline reb_whfast512_kepler_step(const struct reb_simulation* const r, const double dt){
+    REB_VERIF(r, "w5_kepler", 2, dt, r->dt);
 #ifdef PROF
     struct reb_timeval time_beginning;
     gettimeofday(&time_beginning,NULL);
@@ -355,6 +358,7 @@ static __m512d inline gravity_prefactor_avx512( __m512d m, __m512d dx, __m512d d
 
 // Performs one full interaction step
 static void reb_whfast512_interaction_step_8planets(struct reb_simulation * r, double dt){
+    REB_VERIF(r, "w5_kick", 3, dt, r->dt, 8.);
 #ifdef PROF
     struct reb_timeval time_beginning;
     gettimeofday(&time_beginning,NULL);
@@ -550,6 +554,7 @@ static void reb_whfast512_interaction_step_8planets(struct reb_simulation * r, d
 
 // Performs one full interaction step
 static void reb_whfast512_interaction_step_4planets(struct reb_simulation * r, double dt){
+    REB_VERIF(r, "w5_kick", 3, dt, r->dt, 4.);
 #ifdef PROF
     struct reb_timeval time_beginning;
     gettimeofday(&time_beginning,NULL);
@@ -656,6 +661,7 @@ static void reb_whfast512_interaction_step_4planets(struct reb_simulation * r, d
 }
 
 static void reb_whfast512_interaction_step_2planets(struct reb_simulation * r, double dt){
+    REB_VERIF(r, "w5_kick", 3, dt, r->dt, 2.);
 #ifdef PROF
     struct reb_timeval time_beginning;
     gettimeofday(&time_beginning,NULL);
@@ -728,6 +734,7 @@ static void reb_whfast512_interaction_step_2planets(struct reb_simulation * r, d
 // Convert inertial coordinates to democratic heliocentric coordinates
 // Note: this is only called at the beginning. Speed is not a concern.
 static void inertial_to_democraticheliocentric_posvel(struct reb_simulation* r){
+    REB_VERIF(r, "w5_to_dh", 1, (double)r->N);
     struct reb_integrator_whfast512* const ri_whfast512 = &(r->ri_whfast512);
     struct reb_particle* particles = r->particles;
     const unsigned int N_systems = ri_whfast512->N_systems;
@@ -810,6 +817,7 @@ static void inertial_to_democraticheliocentric_posvel(struct reb_simulation* r){
 
 // Performs one complete jump step
 static void reb_whfast512_jump_step(struct reb_simulation* r, const double _dt){
+    REB_VERIF(r, "w5_jump", 2, _dt, r->dt);
 #ifdef PROF
     struct reb_timeval time_beginning;
     gettimeofday(&time_beginning,NULL);
